@@ -2,12 +2,154 @@
 
 package packet
 
-func VerifPacketDecoder() {
-	n := verifNondetInt()
+import (
+	"fmt"
+	"net"
+)
+
+// C01 layer 1: no panic site reachable in the sampled-header decoder, any length.
+// C07: L2/L3/L4 breakdown equals the header layouts (DESIGN.md A.3).
+
+const verifMACFmt = "%0.2x:%0.2x:%0.2x:%0.2x:%0.2x:%0.2x"
+
+func verifMAC(b []byte, o int) string {
+	return fmt.Sprintf(verifMACFmt, verifAt(b, o), verifAt(b, o+1), verifAt(b, o+2), verifAt(b, o+3), verifAt(b, o+4), verifAt(b, o+5))
+}
+
+func verifInput() (data, orig []byte, n int, proto uint32) {
+	n = verifNondetInt()
 	verifAssume(verifAll(n >= 0, n < 1<<31))
-	data := verifNondetBytes(n)
-	proto := verifNondetU32()
+	data = verifNondetBytes(n)
+	orig = append([]byte(nil), data...) // the decoder rewrites its input when a VLAN tag is present
+	proto = verifNondetU32()
+	return
+}
+
+func VerifPacketDecoder() {
+	data, _, _, proto := verifInput()
 	p := NewPacket()
 	p.Decoder(data, proto)
+	verifReach("end")
+}
+
+// expected L4 starting at offset o of orig with n octets in total
+func verifCheckL4(p *Packet, err error, orig []byte, n, o int, proto int) {
+	rem := n - o
+	switch proto {
+	case 1, 58:
+		if rem >= 5 {
+			verifAssert(err == nil, "ICMP: enough octets: must decode")
+			ic, ok := p.L4.(ICMP)
+			verifAssert(ok, "ICMP: L4 type")
+			verifAssert(verifAll(ic.Type == int(verifAt(orig, o)), ic.Code == int(verifAt(orig, o+1))), "ICMP: Type/Code")
+			verifAssert(len(ic.RestHeader) == rem-4, "ICMP: rest of header length")
+			j := verifNondetInt()
+			verifAssume(verifAll(j >= 0, j < rem-4))
+			verifAssert(verifAt(ic.RestHeader, j) == verifAt(orig, o+4+j), "ICMP: rest of header octets")
+		} else {
+			verifAssert(err != nil, "ICMP: short header must fail")
+		}
+	case 6:
+		if rem >= 20 {
+			verifAssert(err == nil, "TCP: enough octets: must decode")
+			t, ok := p.L4.(TCPHeader)
+			verifAssert(ok, "TCP: L4 type")
+			verifAssert(verifAll(t.SrcPort == int(verifAt(orig, o))<<8|int(verifAt(orig, o+1)), t.DstPort == int(verifAt(orig, o+2))<<8|int(verifAt(orig, o+3))), "TCP: ports")
+			verifAssert(t.DataOffset == int(verifAt(orig, o+12))>>4, "TCP: DataOffset")
+			verifAssert(t.Flags == (int(verifAt(orig, o+12))<<8|int(verifAt(orig, o+13)))&0x1ff, "TCP: Flags")
+		} else {
+			verifAssert(err != nil, "TCP: short header must fail")
+		}
+	case 17:
+		if rem >= 8 {
+			verifAssert(err == nil, "UDP: enough octets: must decode")
+			u, ok := p.L4.(UDPHeader)
+			verifAssert(ok, "UDP: L4 type")
+			verifAssert(verifAll(u.SrcPort == int(verifAt(orig, o))<<8|int(verifAt(orig, o+1)), u.DstPort == int(verifAt(orig, o+2))<<8|int(verifAt(orig, o+3))), "UDP: ports")
+		} else {
+			verifAssert(err != nil, "UDP: short header must fail")
+		}
+	default:
+		verifAssert(err != nil, "unknown transport protocol must be reported")
+	}
+}
+
+func verifCheckL3(p *Packet, err error, orig []byte, n, o int, v6 bool) {
+	rem := n - o
+	if !v6 {
+		if rem < 20 {
+			verifAssert(err != nil, "IPv4: short header must fail")
+			return
+		}
+		h, ok := p.L3.(IPv4Header)
+		verifAssert(ok, "IPv4: L3 type")
+		verifAssert(verifAll(h.Version == int(verifAt(orig, o))>>4, h.TOS == int(verifAt(orig, o+1)), h.TotalLen == int(verifAt(orig, o+2))<<8|int(verifAt(orig, o+3)), h.ID == int(verifAt(orig, o+4))<<8|int(verifAt(orig, o+5))), "IPv4: Version/TOS/TotalLen/ID")
+		verifAssert(h.Flags == int(verifAt(orig, o+6))>>5, "IPv4: Flags")
+		verifAssert(h.FragOff == int(verifAt(orig, o+6)&0x1f)<<8|int(verifAt(orig, o+7)), "IPv4: FragOff")
+		verifAssert(verifAll(h.TTL == int(verifAt(orig, o+8)), h.Protocol == int(verifAt(orig, o+9)), h.Checksum == int(verifAt(orig, o+10))<<8|int(verifAt(orig, o+11))), "IPv4: TTL/Protocol/Checksum")
+		verifAssert(verifStrEq(h.Src, net.IP(orig[o+12:o+16]).String()), "IPv4: Src")
+		verifAssert(verifStrEq(h.Dst, net.IP(orig[o+16:o+20]).String()), "IPv4: Dst")
+		verifCheckL4(p, err, orig, n, o+20, int(verifAt(orig, o+9)))
+		return
+	}
+	if rem < 40 {
+		verifAssert(err != nil, "IPv6: short header must fail")
+		return
+	}
+	h, ok := p.L3.(IPv6Header)
+	verifAssert(ok, "IPv6: L3 type")
+	verifAssert(verifAll(h.Version == int(verifAt(orig, o))>>4, h.TrafficClass == int(verifAt(orig, o)&0x0f)<<4|int(verifAt(orig, o+1))>>4), "IPv6: Version/TrafficClass")
+	verifAssert(h.FlowLabel == int(verifAt(orig, o+1)&0x0f)<<16|int(verifAt(orig, o+2))<<8|int(verifAt(orig, o+3)), "IPv6: FlowLabel")
+	verifAssert(verifAll(h.PayloadLen == int(verifAt(orig, o+4))<<8|int(verifAt(orig, o+5)), h.NextHeader == int(verifAt(orig, o+6)), h.HopLimit == int(verifAt(orig, o+7))), "IPv6: PayloadLen/NextHeader/HopLimit")
+	verifAssert(verifStrEq(h.Src, net.IP(orig[o+8:o+24]).String()), "IPv6: Src")
+	verifAssert(verifStrEq(h.Dst, net.IP(orig[o+24:o+40]).String()), "IPv6: Dst")
+	verifCheckL4(p, err, orig, n, o+40, int(verifAt(orig, o+6)))
+}
+
+// VerifPacketOracle: field-for-field breakdown for every length and content.
+func VerifPacketOracle() {
+	data, orig, n, proto := verifInput()
+	pk := NewPacket()
+	p, err := pk.Decoder(data, proto)
+	switch proto {
+	case 1:
+		if n < 14 {
+			verifAssert(err != nil, "Ethernet: short header must fail")
+			break
+		}
+		et := uint16(verifAt(orig, 12))<<8 | uint16(verifAt(orig, 13))
+		o := 14
+		if et == 0x8100 {
+			if n < 18 {
+				verifAssert(err != nil, "802.1Q: short header must fail")
+				break
+			}
+			tci := int(verifAt(orig, 14))<<8 | int(verifAt(orig, 15))
+			verifAssert(p.L2.Vlan&0xfff == tci&0xfff, "802.1Q: VLAN id")
+			et = uint16(verifAt(orig, 16))<<8 | uint16(verifAt(orig, 17))
+			o = 18
+		} else {
+			verifAssert(p.L2.Vlan == 0, "untagged frame: Vlan is zero")
+		}
+		verifAssert(p.L2.EtherType == et, "Ethernet: EtherType")
+		if et != 0x8100 { // (a second tag is not broken down: outside the claim)
+			verifAssert(verifStrEq(p.L2.DstMAC, verifMAC(orig, 0)), "Ethernet: DstMAC")
+			verifAssert(verifStrEq(p.L2.SrcMAC, verifMAC(orig, 6)), "Ethernet: SrcMAC")
+		}
+		switch et {
+		case 0x0800:
+			verifCheckL3(p, err, orig, n, o, false)
+		case 0x86dd:
+			verifCheckL3(p, err, orig, n, o, true)
+		default:
+			verifAssert(err != nil, "unknown ether type must be reported")
+		}
+	case 11:
+		verifCheckL3(p, err, orig, n, 0, false)
+	case 12:
+		verifCheckL3(p, err, orig, n, 0, true)
+	default:
+		verifAssert(err != nil, "unknown header protocol must be reported")
+	}
 	verifReach("end")
 }
